@@ -22,6 +22,7 @@ import (
 	"fmt"
 	"io"
 	"math"
+	"os"
 	"sort"
 	"strconv"
 	"strings"
@@ -174,9 +175,8 @@ func checkKey(env *valenv.Env, nd *node, post bool, pk []byte, label string, res
 	if !equalStrings(sub, want) {
 		res.bad("subscribed-topic-differs", fmt.Sprintf("Subscribe joined %v, commons.ValidatorTopicID gives %v (%s)", sub, want, label), trace, sub, want)
 	}
-	_ = nd.net.(interface {
-		Unsubscribe(*zap.Logger, spectypes.ValidatorPK) error
-	}).Unsubscribe(zap.NewNop(), pk)
+	// (no Unsubscribe here: keys are distinct, and nothing in the node ever calls
+	// p2pNetwork.Unsubscribe — see the final report for what happens if one does)
 	res.outcomes["subscribe: "+strings.Join(sub, ",")+" == mapping"]++
 	if len(pk) != 48 {
 		res.outcomes[fmt.Sprintf("malformed key len<5=%v: subscribe agrees with mapping", len(pk) < 5)]++
@@ -218,8 +218,7 @@ func checkKey(env *valenv.Env, nd *node, post bool, pk []byte, label string, res
 			base = commons.SubnetTopicID((subnet + 1) % commons.Subnets())
 		}
 		full := commons.GetTopicFullName(base)
-		v, rec := env.NewValidator(post)
-		env.SetClock(0, time.Second)
+		v, rec := env.NewValidator(post) // the clock was frozen once by valenv.New (1 s into the current slot)
 		pm := &pubsub.Message{Message: &pspb.Message{Data: wire.data, Topic: &full, From: []byte("16Uiu2HAkyWQyCb6reWXGQeBUt9EXArk6h3aq3PsFMwLNq3pPGH1r")}, ReceivedFrom: peerA}
 		var r pubsub.ValidationResult
 		if p := enum.Guard(func() { r = v.ValidatePubsubMessage(context.Background(), peerA, pm) }); p != nil {
@@ -320,7 +319,17 @@ func keyAlphabet(env *valenv.Env, thorough bool) (keys []keyCase, bounds []strin
 		}
 		bounds = append(bounds, fmt.Sprintf("thorough: bytes 3-4 of the three other base keys and bytes 4-5 of the known key: %d keys", len(keys)-n0))
 	}
-	return
+	// the enumerations overlap (a byte-3 variation is also a bytes-3-4 value): keep the first
+	seen := map[string]bool{}
+	out := keys[:0]
+	for _, k := range keys {
+		if !seen[string(k.pk)] {
+			seen[string(k.pk)] = true
+			out = append(out, k)
+		}
+	}
+	bounds = append(bounds, fmt.Sprintf("distinct keys after removing overlaps between the enumerations: %d", len(out)))
+	return out, bounds
 }
 
 func main() {
@@ -647,8 +656,5 @@ func replay(r *ev.Run, env *valenv.Env) {
 		fmt.Println("not reproduced")
 		return
 	}
-	defer func() {}()
-	panic(exitCode(1))
+	os.Exit(1)
 }
-
-type exitCode int
